@@ -81,6 +81,7 @@ class Profile:
         self.roots = None           # restrict root types
         self.multi_root = True
         self.symbolset = True
+        self.kv_roots = True
         self.avoid = set()          # names of open known findings to avoid by construction
         self.expr_depth = 2
         self.version = None         # only slots/alternatives valid for this version (C07 valid docs)
@@ -102,6 +103,9 @@ class Gen:
         if p.symbolset and not p.roots and ch.chance(1, 25):
             n = ch.int(0, 3)
             return [{"t": "symbolset", "items": [["obj", self.obj("symbol", 1)] for _ in range(n)]}]
+        if p.kv_roots and not p.roots and ch.chance(1, 30):
+            # a key-value block as the root of a partial Mapfile
+            return [{"t": ch.choice(["metadata", "validation", "connectionoptions"]), "kvroot": self.kv_pairs(), "items": []}]
         n = 1
         if p.multi_root and ch.chance(1, 6):
             n = ch.int(2, 3)
@@ -265,6 +269,8 @@ class Gen:
             mn, mx = alt.node.get("minLength"), alt.node.get("maxLength")
             if mx == 1:
                 return "str", ch.choice(["a", "&", "x", "|", " ", "é", "#"] if not p.forbid else ["a", "&", "x", "|", " "])
+            if k == "symbol" and ch.chance(1, 2):
+                return "str", ch.choice(strings.WORDS)  # symbol names: usually plain (bare-able) words
             s, _ = self.string(multi_alt=multi)
             if multi and p.valid and not self._string_alt_unambiguous(slot, s):
                 s = ch.choice(strings.WORDS)
